@@ -125,7 +125,7 @@ def tagged_rerun_case(args):
     # merge reads the tagged branch and, directly, the original out-port; its output name is the default one (tags included)
     # or is built from the tag explicitly
     sp.proc(t3.Proc("merge", kind="cat", ins=[("x", [(proc, "o")]), ("y", [(make, "o")])],
-                    outs=[("o", rng.choice([None, "{i:y}.{t:sample}.merged"]))]))
+                    outs=[("o", rng.choice([None, "{i:y}.{t:y.sample}.merged"]))]))
     sc = t3.Scratch()
     try:
         sc.plant(sp.files)
